@@ -15,9 +15,22 @@
  * own detect.c with the CARQUET_VERIF hook (environment cap + reset).  For every capability
  * mask the harness prints which kernel each table slot holds (`simd_dispatch`), then drives
  * every slot through that table (`vs=scalar,dm`).
+ *
+ * Coverage of the vector paths (what this file drives per kernel; the counts are re-computed at run
+ * time and emitted as `simd_coverage` lines, which the driver checks to be non-zero):
+ *   sweep           counts 0..67 (thorough 0..259) x 7 src/dst misalignments (thorough: all 64 for counts <= 67)
+ *                   x 3 value patterns: every block width W <= 64 with count/W = 0, 1, >= 2 and every remainder;
+ *   directed        counts W-1, W, W+1 around every block width and cascade boundary up to 4 x 64 bytes
+ *                   (127..129, 255..257, 383, 511..513; thorough up to 2049) x misaligned starts, all kernels;
+ *   match_copy      every offset class (1, 2, 4: pattern fills; 3, 5, 7: bytes; 8..15: scalar 8-byte blocks,
+ *                   SSE bytes; >= 16: SSE 16-byte blocks + the single 8-byte step) x lengths 0..40 and around 48, 64, 128;
+ *   gather_wide     indices with the top bit set against a dictionary window placed in a 24 / 48 GiB
+ *                   MAP_NORESERVE mapping: vpgatherdd/dq sign-extend, the scalar and SSE code zero-extend
+ *                   (`x_eq_scalar`: outside the slot's contract; tie to the models on both sides of 2^31).
  */
 #define _GNU_SOURCE
 #include "common.h"
+#include <sys/mman.h>
 
 /* ---- private copy of the dispatcher ------------------------------------------------------- */
 #define carquet_simd_dispatch_init              hx_simd_dispatch_init
@@ -333,6 +346,37 @@ static unsigned long g_cap = 0;   /* capability mask in force for the private ta
 static int g_dm = 0;              /* 1: run variants {scalar, dm} instead of the descriptor's list */
 static long st_lines[NKD], st_diff[NKD];
 
+/* block widths (in elements of `n`) of the vector loops of each kernel kind, all variants together */
+typedef struct { int kind; int es; int w[6]; } kwidths;   /* es: 8 = kernels of the 64-bit flavour, 0 = any */
+static const kwidths KW[] = {
+  { K_PSUM32, 0, { 4, 8, 16 } }, { K_PSUM64, 0, { 2, 4, 8 } }, { K_GATHER32, 0, { 4, 8, 16 } }, { K_GATHER64, 0, { 4, 8 } },
+  { K_BSS_ENC4, 0, { 4, 8, 16 } }, { K_BSS_DEC4, 0, { 4, 8, 16 } }, { K_BSS_ENC8, 0, { 2, 4 } },
+  { K_UNPACK_BOOLS, 0, { 16, 32, 64 } }, { K_PACK_BOOLS, 0, { 8, 64 } }, { K_RUNLEN, 0, { 4, 8, 16 } },
+  { K_CRC, 0, { 2, 4, 8 } }, { K_MATCH_COPY, 0, { 8, 16 } }, { K_MATCH_LEN, 0, { 16 } }, { K_COUNT_NN, 0, { 8 } },
+  { K_NULL_BITMAP, 0, { 8 } }, { K_FILL, 0, { 8 } }, { K_MEMSET, 0, { 16, 32, 64, 128, 256 } }, { K_MEMCPY, 0, { 16, 32, 64, 128, 256 } },
+};
+#define NKW ((int)(sizeof KW / sizeof KW[0]))
+/* per kernel x width: lines with count = k*W exactly (k >= 1), with a remainder after >= 1 block, with >= 2 blocks */
+static long cov_full[NKD][6], cov_tail[NKD][6], cov_multi[NKD][6], cov_maxn[NKD];
+static unsigned char cov_mis[NKD][64][64];
+/* match_copy: lines with len >= 17 per offset class */
+static long cov_mc[6];
+static void cov_note(int k, const kdesc* d, const kcase* c) {
+    for (int q = 0; q < NKW; q++) if (KW[q].kind == d->kind)
+        for (int j = 0; j < 6 && KW[q].w[j]; j++) {
+            int64_t W = KW[q].w[j];
+            if (c->n >= W && c->n % W == 0) cov_full[k][j]++;
+            if (c->n >= W && c->n % W != 0) cov_tail[k][j]++;
+            if (c->n >= 2 * W) cov_multi[k][j]++;
+        }
+    if (c->n > cov_maxn[k]) cov_maxn[k] = (long)c->n;
+    cov_mis[k][c->sa & 63][c->da & 63] = 1;
+    if (d->kind == K_MATCH_COPY && c->n >= 17) {
+        int64_t o = c->s1;
+        cov_mc[o == 1 ? 0 : o == 2 ? 1 : o == 4 ? 2 : o < 8 ? 3 : o < 16 ? 4 : 5]++;
+    }
+}
+
 /* print the line for one case and run every variant */
 static void do_case(hctx* h, const kdesc* d, const kcase* c) {
     FILE* f = h->out;
@@ -365,6 +409,7 @@ static void do_case(hctx* h, const kdesc* d, const kcase* c) {
     fprintf(f, " %s_eq_scalar=%d p_guard=%d%s\n", c->dom ? "p" : "x", all_eq, guard, c->n == 0 ? " triv=1" : "");
     for (int i = 0; i < nv; i++) free(res[i].out);
     h->n_lines++; st_lines[d - KD]++; if (!all_eq) st_diff[d - KD]++;
+    if (!g_dm) cov_note((int)(d - KD), d, c);
 }
 
 /* ---- value patterns ------------------------------------------------------------------------ */
@@ -382,6 +427,7 @@ static void fill_ints(hctx* h, uint8_t* p, size_t n, int es, int pat) {
 }
 
 static const unsigned MIS7[7] = { 0, 1, 3, 7, 15, 31, 63 };
+static size_t g_force_off = 0;   /* match_copy: use this offset instead of the rotating one */
 
 static void gen_one(hctx* h, const kdesc* d, int64_t n, unsigned sa, unsigned da, int pat) {
     kcase c; memset(&c, 0, sizeof c);
@@ -425,7 +471,7 @@ static void gen_one(hctx* h, const kdesc* d, int64_t n, unsigned sa, unsigned da
     case K_MATCH_COPY: {
         /* offsets: every small one (overlapping patterns 1,2,4 have their own code), 8, 15, 16, 17, larger */
         static const size_t offs[] = { 1, 2, 3, 4, 5, 7, 8, 9, 15, 16, 17, 24, 33 };
-        size_t off = offs[(size_t)(n + pat * 5 + sa) % (sizeof offs / sizeof offs[0])];
+        size_t off = g_force_off ? g_force_off : offs[(size_t)(n + pat * 5 + sa) % (sizeof offs / sizeof offs[0])];
         c.s1 = (int64_t)off; c.la = off; c.a = h_alloc(off); h_fill(h, c.a, off, 0);
         break; }
     case K_MATCH_LEN: {
@@ -521,6 +567,89 @@ static void restore_full_caps(void) {
     (void)carquet_get_cpu_info();
 }
 
+
+/* ---- gathers on indices with the top bit set -------------------------------------------------
+ * The dictionary pointer sits in the middle of a huge MAP_NORESERVE mapping so that both
+ * dict[(uint32_t)i] (what the scalar and SSE code read) and dict[(int32_t)i] (what vpgatherdd/dq
+ * read) are mapped; the element at signed element offset o holds mix(o).  Only the windows the
+ * indices can reach are ever touched.  Outside the slot's contract (dictionary_count is an int32_t):
+ * reported as x_eq_scalar; the driver ties every variant to its model (Impl.Simd.i32gather = sign
+ * extension, loadZx = zero extension). */
+static uint64_t gw_mix(int64_t o, int es) {
+    uint64_t x = (uint64_t)o * 0x9E3779B97F4A7C15ull + 0x0123456789ABCDEFull;
+    return es == 4 ? (uint32_t)(x >> 16) : x;
+}
+#define GW_K 16   /* window half-width in elements */
+static void gw_fill(uint8_t* base, int es, int64_t lo, int64_t hi) {
+    for (int64_t o = lo; o < hi; o++) { uint64_t v = gw_mix(o, es); memcpy(base + o * es, &v, (size_t)es); }
+}
+/* one line: map, fill the five windows, run every variant, print, unmap; returns 0 if the mapping failed */
+static int gw_line(hctx* h, const kdesc* d, int64_t n, int dom, unsigned long host, const uint32_t* idx) {
+    int es = d->kind == K_GATHER32 ? 4 : 8;
+    size_t below = ((size_t)1 << 31) * (size_t)es + 65536, above = ((size_t)1 << 32) * (size_t)es + 65536;
+    uint8_t* map = mmap(NULL, below + above, PROT_READ | PROT_WRITE, MAP_PRIVATE | MAP_ANONYMOUS | MAP_NORESERVE, -1, 0);
+    if (map == MAP_FAILED) return 0;
+    uint8_t* base = map + below;
+    const int64_t P31 = (int64_t)1 << 31, P32 = (int64_t)1 << 32;
+    gw_fill(base, es, 0, GW_K); gw_fill(base, es, P31 - GW_K, P31 + GW_K); gw_fill(base, es, P32 - GW_K, P32);
+    gw_fill(base, es, -P31, -P31 + GW_K); gw_fill(base, es, -GW_K, 0);
+    fprintf(h->out, "simd_gather_wide name=%s es=%d n=%lld dom=%d cpu=%lu idx=", d->name, es, (long long)n, dom, host);
+    h_hex(h->out, (const uint8_t*)idx, (size_t)n * 4);
+    h_call(h);
+    fprintf(h->out, " |");
+    size_t lo = (size_t)n * (size_t)es; int all_eq = 1;
+    uint8_t* ref = NULL;
+    for (int v = 0; v < d->nvar; v++) {
+        xbuf O = xb_new(lo, MIS7[(n + v) % 7], NULL, 0xCD);
+        xbuf I = xb_new((size_t)n * 4, MIS7[(n + 2 * v + 1) % 7], (const uint8_t*)idx, 0);
+        if (es == 4) ((gather_i32_fn)d->var[v].fn)((const int32_t*)base, (const uint32_t*)I.p, n, (int32_t*)O.p);
+        else ((gather_i64_fn)d->var[v].fn)((const int64_t*)base, (const uint32_t*)I.p, n, (int64_t*)O.p);
+        fprintf(h->out, " r_%s=", d->var[v].vname); h_hex(h->out, O.p, lo);
+        if (v == 0) { ref = h_alloc(lo); memcpy(ref, O.p, lo); }
+        else if (memcmp(ref, O.p, lo)) all_eq = 0;
+        xb_free(&O); xb_free(&I);
+    }
+    fprintf(h->out, " %s_eq_scalar=%d\n", dom ? "p" : "x", all_eq);
+    h->n_lines++; free(ref);
+    munmap(map, below + above);
+    return 1;
+}
+
+static void gen_gather_wide(hctx* h, unsigned long host) {
+    static const int64_t NS[] = { 1, 4, 7, 8, 9, 15, 16, 17, 24, 25, 31, 32, 33, 41 };
+    const int64_t P31 = (int64_t)1 << 31, P32 = (int64_t)1 << 32;
+    for (int k = 0; k < NKD; k++) {
+        const kdesc* d = &KD[k];
+        if (d->kind != K_GATHER32 && d->kind != K_GATHER64) continue;
+        for (int dom = 1; dom >= 0; dom--)
+          for (size_t ni = 0; ni < sizeof NS / sizeof NS[0]; ni++)
+            for (int rep = 0; rep < (h->thorough ? 4 : 1); rep++) {
+                int64_t n = NS[ni];
+                uint32_t* idx = (uint32_t*)h_alloc((size_t)n * 4);
+                for (int64_t i = 0; i < n; i++) {
+                    uint64_t w = h_below(h, dom ? 2 : 4), o = h_below(h, GW_K);
+                    /* dom=1: [0,K) and [2^31-K, 2^31): both address computations agree;
+                     * dom=0: also [2^31, 2^31+K) and [2^32-K, 2^32): they differ */
+                    idx[i] = w == 0 ? (uint32_t)o : w == 1 ? (uint32_t)(P31 - 1 - (int64_t)o)
+                           : w == 2 ? (uint32_t)(P31 + (int64_t)o) : (uint32_t)(P32 - 1 - (int64_t)o);
+                }
+                if (dom == 0) idx[h_below(h, (uint64_t)n)] = (uint32_t)P31;   /* at least one with the top bit set */
+                if (!gw_line(h, d, n, dom, host, idx)) { fprintf(h->out, "#stat gather_wide_skipped 1\n"); free(idx); return; }
+                free(idx);
+            }
+    }
+}
+
+static void replay_gather_wide(hctx* h, const h_line* l) {
+    const kdesc* d = NULL;
+    for (int k = 0; k < NKD; k++) if (!strcmp(h_in(l, "name"), KD[k].name)) d = &KD[k];
+    if (!d || (d->kind != K_GATHER32 && d->kind != K_GATHER64)) return;
+    size_t li = 0; uint8_t* idx = h_unhex(h_in(l, "idx"), &li);
+    restore_full_caps();   /* the `dispatch` variant runs under this host's capabilities: print those, not the recorded ones */
+    gw_line(h, d, (int64_t)(li / 4), (int)h_ll(h_in(l, "dom")), cpu_bits(carquet_get_cpu_info()), (const uint32_t*)idx);
+    free(idx);
+}
+
 #define B_SSE2 1ul
 #define B_SSE41 2ul
 #define B_SSE42 4ul
@@ -588,11 +717,63 @@ static void gen_simd(hctx* h) {
             h->n_lines++; free(lv);
         }
     }
+
+    /* 2c. directed counts around every block width and cascade boundary up to 4 x 64 bytes, misaligned starts */
+    {
+        static const int64_t LQ[] = { 127, 128, 129, 255, 256, 257, 383, 511, 512, 513 };
+        static const int64_t LT[] = { 95, 96, 97, 191, 192, 193, 319, 320, 321, 384, 385, 447, 448, 449, 639, 640, 641,
+                                      767, 768, 769, 1023, 1024, 1025, 2047, 2048, 2049 };
+        static const unsigned MP[6][2] = { { 1, 63 }, { 0, 0 }, { 63, 1 }, { 31, 33 }, { 15, 17 }, { 7, 0 } };
+        int nmp = h->thorough ? 6 : 2;
+        for (int k = 0; k < NKD; k++) {
+            if (KD[k].kind == K_BITUNPACK) continue;
+            for (size_t li = 0; li < sizeof LQ / sizeof LQ[0]; li++)
+                for (int m = 0; m < nmp; m++) gen_one(h, &KD[k], LQ[li], MP[m][0], MP[m][1], (int)((li + (size_t)m) % 3));
+            if (h->thorough)
+                for (size_t li = 0; li < sizeof LT / sizeof LT[0]; li++)
+                    for (int m = 0; m < 3; m++) gen_one(h, &KD[k], LT[li], MP[m][0], MP[m][1], (int)((li + (size_t)m) % 3));
+        }
+    }
+    /* 2d. match_copy: every offset class x lengths (the rotating choice of the sweep does not pair them all) */
+    {
+        static const size_t offs[] = { 1, 2, 3, 4, 5, 7, 8, 9, 15, 16, 17, 24, 33, 64 };
+        static const int64_t lens[] = { 0, 1, 2, 3, 4, 5, 7, 8, 9, 15, 16, 17, 23, 24, 25, 31, 32, 33, 40, 47, 48, 49, 63, 64, 65, 127, 128, 129 };
+        const kdesc* d = NULL; for (int k = 0; k < NKD; k++) if (KD[k].kind == K_MATCH_COPY) d = &KD[k];
+        for (size_t oi = 0; oi < sizeof offs / sizeof offs[0]; oi++)
+            for (size_t li = 0; li < sizeof lens / sizeof lens[0]; li++) {
+                if (!h->thorough && lens[li] > 33 && (li + oi) % 2) continue;
+                g_force_off = offs[oi];
+                gen_one(h, d, lens[li], MIS7[(oi + li) % 7], 0, (int)((oi + li) % 3));
+            }
+        g_force_off = 0;
+    }
+    /* 2e. gathers with indices on both sides of 2^31 (sign- vs zero-extension of the index) */
+    gen_gather_wide(h, host);
     /* 3. CRC32C check string and a long buffer (all four width levels of the hardware loop) */
     {
         const kdesc* d = NULL; for (int k = 0; k < NKD; k++) if (KD[k].kind == K_CRC) d = &KD[k];
         kcase c; memset(&c, 0, sizeof c); c.dom = 1; c.n = 9; c.la = 9; c.a = (uint8_t*)strdup("123456789"); c.junk = 0xCD;
         do_case(h, d, &c); free(c.a);
+    }
+    /* 4. what the run covered, per kernel and block width (checked non-zero by the driver) */
+    for (int k = 0; k < NKD; k++) {
+        const kwidths* kw = NULL; for (int q = 0; q < NKW; q++) if (KW[q].kind == KD[k].kind) kw = &KW[q];
+        if (!kw) continue;
+        long nm = 0; for (int a = 0; a < 64; a++) for (int b = 0; b < 64; b++) nm += cov_mis[k][a][b];
+        fprintf(h->out, "simd_coverage name=%s widths=", KD[k].name);
+        for (int j = 0; j < 6 && kw->w[j]; j++) fprintf(h->out, "%s%d", j ? "," : "", kw->w[j]);
+        h_call(h);
+        fprintf(h->out, " | full=");
+        for (int j = 0; j < 6 && kw->w[j]; j++) fprintf(h->out, "%s%ld", j ? "," : "", cov_full[k][j]);
+        fprintf(h->out, " tail=");
+        for (int j = 0; j < 6 && kw->w[j]; j++) fprintf(h->out, "%s%ld", j ? "," : "", cov_tail[k][j]);
+        fprintf(h->out, " multi=");
+        for (int j = 0; j < 6 && kw->w[j]; j++) fprintf(h->out, "%s%ld", j ? "," : "", cov_multi[k][j]);
+        fprintf(h->out, " maxn=%ld mis=%ld", cov_maxn[k], nm);
+        if (KD[k].kind == K_MATCH_COPY)
+            fprintf(h->out, " mc=%ld,%ld,%ld,%ld,%ld,%ld", cov_mc[0], cov_mc[1], cov_mc[2], cov_mc[3], cov_mc[4], cov_mc[5]);
+        fprintf(h->out, " triv=1\n");
+        h->n_lines++;
     }
     for (int k = 0; k < NKD; k++) {
         fprintf(h->out, "#stat lines_%s %ld\n", KD[k].name, st_lines[k]);
@@ -603,6 +784,11 @@ static void gen_simd(hctx* h) {
 /* ---- replay -------------------------------------------------------------------------------- */
 static int replay_simd(hctx* h, const h_line* l) {
     if (strncmp(l->op, "simd_", 5)) return 0;
+    if (!strcmp(l->op, "simd_coverage") || !strcmp(l->op, "simd_count_big")) {
+        fprintf(h->out, "# %s lines summarise a whole run; re-run the generator to reproduce\n", l->op);
+        return 1;
+    }
+    if (!strcmp(l->op, "simd_gather_wide")) { replay_gather_wide(h, l); return 1; }
     if (!strcmp(l->op, "simd_dispatch")) {
         do_dispatch(h, (unsigned long)h_ll(h_in(l, "cap")));
         restore_full_caps();
